@@ -201,8 +201,9 @@ def main(tier, seed, collect=None):
     missing = [r for r in RUNTIMES if r not in avail]
     for m in missing:
         total.notes["runtime %s is not installed: reduced coverage" % m] += 1
-    # converter hosts: the oldest interpreter the converter itself runs on and the pinned one (quick); all four (thorough)
-    hosts = [h for h in (("py310", "py312") if tier == "quick" else ("py310", "py311", "py312", "py313")) if h in avail]
+    # converter hosts: every interpreter the converter itself runs on, in both tiers (host-specific code paths of the
+    # converter, e.g. the pre-rendering pass for 3.11+/3.12+, differ between adjacent versions)
+    hosts = [h for h in ("py310", "py311", "py312", "py313") if h in avail]
     progs = list(programs(tier))
     total.c["programs_generated"] = len(progs)
     chunks = list(core.chunked(progs, max(50, len(progs) // 48)))
